@@ -334,3 +334,74 @@ VARIANTS["C20"] = [
     ("b-open-wt", PH, 'gtchange_list_file = stack.enter_context(open(gtchange_list_filename, "w"))', 'gtchange_list_file = stack.enter_context(open(gtchange_list_filename, "wt"))', "silent"),
     ("b-open-per-sample-file", PH, "                    readsets[sample] = selected_reads\n", "                    readsets[sample] = selected_reads\n                    if logger.isEnabledFor(logging.DEBUG) and read_list_filename:\n                        with open(f\"{read_list_filename}.{sample}.{chromosome}.debug\", \"w\") as dbg:\n                            print(len(selected_reads), file=dbg)\n", "silent"),
 ]
+
+# ------------------------------------------------------------------------------------------ round 3 additions
+_RO = "whatshap/polyphase/reorder.py"
+_HP = "whatshap/cli/haplotagphase.py"
+_PQ = "whatshap/priorityqueue.pyx"
+_VAR = "whatshap/variants.py"
+_RS = "whatshap/readselect.pyx"
+_INIT = "whatshap/cli/__init__.py"
+_PED = "whatshap/pedigree.py"
+
+VARIANTS["C03"] += [
+    ("r3-positions-from-global-slice", PH, "            positions = [\n                variant.position for variant in read if variant.position in phased_positions_set\n            ]", "            positions = list(phased_positions)", "C03.R2"),
+]
+VARIANTS["C04"] += [
+    ("r3-removal-after-alt-skip", VCF, "            self._remove_existing_phasing(record, list(sample_superreads))\n            pos = record.start\n            if not record.alts:\n                continue\n", "            pos = record.start\n            if not record.alts:\n                continue\n            self._remove_existing_phasing(record, list(sample_superreads))\n", "C04.R4"),
+    ("b-r3-removal-after-pos", VCF, "            self._remove_existing_phasing(record, list(sample_superreads))\n            pos = record.start\n", "            pos = record.start\n            self._remove_existing_phasing(record, list(sample_superreads))\n", "silent"),
+]
+VARIANTS["C05"] += [
+    ("b-r3-find-inside-merge-loop-unused", PH, "                family_finder.merge(trio.mother, trio.child)\n    else:", "                family_finder.merge(trio.mother, trio.child)\n            logger.debug(\"family of %s: %s\", trio.child, family_finder.find(trio.child))\n    else:", "silent"),
+    ("b-r3-early-find-unused", PH, "    family_finder = ComponentFinder(samples)\n    if ped_path is not None:", "    family_finder = ComponentFinder(samples)\n    early = {sample: family_finder.find(sample) for sample in samples}\n    if ped_path is not None:", "silent"),
+]
+VARIANTS["C06"] += [
+    ("r3-cursor-skips-start-noref", _VAR, "                    and valid_positions[i] < alignment.bam_alignment.reference_start", "                    and valid_positions[i] <= alignment.bam_alignment.reference_start", "C06.R8"),
+    ("b-r3-cursor-flipped-operands", _VAR, "                    and normalized_variants[i].position < alignment.bam_alignment.reference_start", "                    and alignment.bam_alignment.reference_start > normalized_variants[i].position", "silent"),
+]
+VARIANTS["C07"] += [
+    ("r3-selection-gets-all-preferred", _RS, "\t\tselected_reads.update(selected_preferred_reads)", "\t\tselected_reads.update(preferred_reads)", "C07.R4"),
+    ("b-r3-selection-ior", _RS, "\t\tselected_reads.update(selected_preferred_reads)", "\t\tselected_reads |= selected_preferred_reads", "silent"),
+]
+VARIANTS["C09"] += [
+    ("r3-phase-table-popped", _INIT, "                    variant_table = vcf[chromosome]", "                    variant_table = vcf.pop(chromosome)", "C09.R4"),
+    ("r3-phase-table-deleted-after-use", _INIT, "                        readset.add(read)\n\n        # TODO is this necessary?", "                        readset.add(read)\n                    del vcf[chromosome]\n\n        # TODO is this necessary?", "C09.R4"),
+    ("b-r3-phase-table-get", _INIT, "                    variant_table = vcf[chromosome]", "                    variant_table = vcf.get(chromosome)", "silent"),
+]
+VARIANTS["C10"] += [
+    ("r3-ignore-read-secondary-only", HT, "    if alignment.is_unmapped or alignment.is_secondary:\n        # unmapped", "    if alignment.is_secondary:\n        # unmapped", "C10.R3"),
+    ("r3-ignore-read-supplementary-always-kept", HT, "    elif alignment.is_supplementary:\n        # tag_supplementary is False, so discard\n        ignore = True", "    elif alignment.is_supplementary:\n        # tag_supplementary is False, so discard\n        ignore = False", "C10.R3"),
+    ("b-r3-ignore-read-one-expression", HT, "    if alignment.is_unmapped or alignment.is_secondary:\n        # unmapped or secondary alignments are never tagged\n        ignore = True\n    elif tag_supplementary and alignment.is_supplementary:\n        # from the previous if, we know\n        # the alignment to be primary\n        ignore = False\n    elif alignment.is_supplementary:\n        # tag_supplementary is False, so discard\n        ignore = True\n    else:\n        # whatever is left should be good\n        ignore = False\n    return ignore", "    return alignment.is_unmapped or alignment.is_secondary or (alignment.is_supplementary and not tag_supplementary)", "silent"),
+    ("r3-result-per-sample", HT, "    read_to_haplotype = {}\n\n    for sample in sorted(shared_samples):\n", "\n    for sample in sorted(shared_samples):\n        read_to_haplotype = {}\n", "C10.R4"),
+    ("b-r3-result-init-reordered", HT, "    n_multiple_phase_sets = 0\n    BX_tag_to_haplotype = defaultdict(list)\n    # maps read name to (haplotype, quality, phaseset)\n    read_to_haplotype = {}\n", "    read_to_haplotype = {}\n    n_multiple_phase_sets = 0\n    BX_tag_to_haplotype = defaultdict(list)\n", "silent"),
+]
+VARIANTS["C11"] += [
+    ("r3-bed-records-hoisted", CMP, "            print(f\"---------------- Chromosome {chromosome} ----------------\")\n            all_bed_records = []\n", "            print(f\"---------------- Chromosome {chromosome} ----------------\")\n", "C11.R5"),
+    ("b-r3-bed-records-init-later", CMP, "            all_bed_records = []\n            variant_tables = [vcf[chromosome] for vcf in vcfs]\n", "            variant_tables = [vcf[chromosome] for vcf in vcfs]\n            all_bed_records = []\n", "silent"),
+]
+VARIANTS["C12"] += [
+    ("r3-phased-snvs-over-split-blocks", ST, "        phased_snvs = sum(block.count_snvs() for block in self.blocks if len(block) > 1)", "        phased_snvs = sum(block.count_snvs() for block in self.split_blocks if len(block) > 1)", "C12.R2"),
+    ("r3-phased-snvs-includes-singletons", ST, "        phased_snvs = sum(block.count_snvs() for block in self.blocks if len(block) > 1)", "        phased_snvs = sum(block.count_snvs() for block in self.blocks)", "C12.R2"),
+    ("b-r3-phased-snvs-list-comp", ST, "        phased_snvs = sum(block.count_snvs() for block in self.blocks if len(block) > 1)", "        phased_snvs = sum([b.count_snvs() for b in self.blocks if len(b) > 1])", "silent"),
+    ("r3-gtf-id-truthiness", ST, "            if prev_block.id is None:\n", "            if not prev_block.id:\n", "C12.R4"),
+    ("r3-gtf-final-flush-truthiness", ST, "    if gtfwriter and prev_block.id is not None:", "    if gtfwriter and prev_block.id:", "C12.R4"),
+]
+VARIANTS["C15"] += [
+    ("r3-shallow-haplotype-snapshot", _RO, "    haplotypes_copy = deepcopy(haplotypes)", "    haplotypes_copy = haplotypes[:]", "C15.R6"),
+    ("r3-no-thread-snapshot", _RO, "    threads_copy = deepcopy(threads)", "    threads_copy = threads", "C15.R6"),
+    ("b-r3-two-level-snapshot", _RO, "    haplotypes_copy = deepcopy(haplotypes)", "    haplotypes_copy = [h[:] for h in haplotypes]", "silent"),
+    ("r3-conditional-write-back", _RO, "                haplotypes[hap][pos] = res.haplotypes[j][i]", "                if res.haplotypes[j][i] >= 0:\n                    haplotypes[hap][pos] = res.haplotypes[j][i]", "C15.R6"),
+    ("r3-write-back-transposed", _RO, "                haplotypes[hap][pos] = res.haplotypes[j][i]", "                haplotypes[hap][pos] = res.haplotypes[i][j]", "C15.R6"),
+]
+VARIANTS["C17"] += [
+    ("r3-components-renumbered", _HP, "    for read in super_reads:\n        read.sort(key=lambda x: x.position)\n    return super_reads, components", "    for read in super_reads:\n        read.sort(key=lambda x: x.position)\n    components = {pos: min(components) for pos in components}\n    return super_reads, components", "C17.R3"),
+    ("b-r3-components-literal", _HP, "    super_reads = [[], []]\n    components = dict()", "    super_reads = [[], []]\n    components = {}", "silent"),
+]
+VARIANTS["C18"] += [
+    ("r3-sift-down-ignores-ties", _PQ, "\t\t\telse:\n\t\t\t\tif self._score_lower(index, lchildindex):", "\t\t\telif self._score_lower(rchildindex, lchildindex):\n\t\t\t\tif self._score_lower(index, lchildindex):", "C18.R3"),
+    ("b-r3-sift-down-explicit-else", _PQ, "\t\t\telse:\n\t\t\t\tif self._score_lower(index, lchildindex):", "\t\t\telif not self._score_lower(lchildindex, rchildindex):\n\t\t\t\tif self._score_lower(index, lchildindex):", "silent"),
+]
+VARIANTS["C20"] += [
+    ("r3-block-loop-break", _PED, "        if len(block) <= 2:\n            continue\n        for i in range(2, len(block)):", "        if len(block) <= 2:\n            break\n        for i in range(2, len(block)):", "C20.R4"),
+    ("b-r3-block-skip-lt-3", _PED, "        if len(block) <= 2:\n            continue\n        for i in range(2, len(block)):", "        if len(block) < 3:\n            continue\n        for i in range(2, len(block)):", "silent"),
+]
